@@ -210,9 +210,29 @@ func (w *Wrapper) Set(key string, val any) {
 func (w *Wrapper) Copy() Resource {
 	nw := Wrap(reflect.New(w.val.Type()).Interface())
 
+	// ID
+	nw.SetID(w.GetID())
+
 	// Attributes
 	for _, attr := range w.Attrs() {
-		nw.Set(attr.Name, w.Get(attr.Name))
+		// The slices of bytes are copied, not shared.
+		switch val := w.Get(attr.Name).(type) {
+		case []byte:
+			if val != nil {
+				val = append([]byte{}, val...)
+			}
+
+			nw.Set(attr.Name, val)
+		case *[]byte:
+			if val != nil {
+				nval := append([]byte{}, *val...)
+				val = &nval
+			}
+
+			nw.Set(attr.Name, val)
+		default:
+			nw.Set(attr.Name, val)
+		}
 	}
 
 	// Relationships
@@ -220,7 +240,12 @@ func (w *Wrapper) Copy() Resource {
 		if rel.ToOne {
 			nw.Set(rel.FromName, w.Get(rel.FromName).(string))
 		} else {
-			nw.Set(rel.FromName, w.Get(rel.FromName).([]string))
+			ids := w.Get(rel.FromName).([]string)
+			if ids != nil {
+				ids = append([]string{}, ids...)
+			}
+
+			nw.Set(rel.FromName, ids)
 		}
 	}
 
